@@ -596,8 +596,8 @@ def r_heap(ctx):
                 res.ok()
             else:
                 res.fail(rp, name, msg, span=span_of_effect(eff) if eff else ctx.span_of(rp))
-        chk("alloc-sites", len(allocs) == 1 and len(reallocs) == 1 and len(deallocs) == 1 and not others,
-            "expected exactly one alloc, one realloc and one dealloc site, found %d/%d/%d (+%d other allocator calls)" % (len(allocs), len(reallocs), len(deallocs), len(others)))
+        chk("alloc-sites", len(allocs) >= 1 and len(reallocs) >= 1 and len(deallocs) >= 1 and not others,
+            "expected alloc, realloc and dealloc sites and no other allocator call, found %d/%d/%d (+%d other allocator calls)" % (len(allocs), len(reallocs), len(deallocs), len(others)))
         for a in allocs:
             chk("alloc-guard", implies(a["facts"], ("eq0", size0)) and implies(a["facts"], ("ne0", new)) and stride_nonzero(a["facts"]),
                 "alloc must only run when the old size is 0, the new size is not 0 and the element size is not 0 (known: %s)" % fmt_facts(a["facts"]), a)
@@ -638,20 +638,44 @@ def r_heap(ctx):
                    and (e.gid == r.gid or r.gid in I.reachable_from(e.gid))]
             chk("realloc-size-validated", bool(val), "the new size given to realloc is not validated by a checked Layout constructor on the path to the call "
                 "(sizes above isize::MAX must panic, not reach the allocator)", r)
-        nc = I.all_effects(("NULLCHECK", "UNWRAP"))
-        nn = [c for c in I.calls.values() if "indirect" not in c["callee"] and c["callee"]["path"] == "core::ptr::NonNull::<T>::new"]
+        # null check: no path from an allocator call to a store of `self.mem` avoids a null test
+        # (NonNull::new followed by unwrap / unwrap_or_else / expect, or a match on its discriminant)
+        def is_nullcheck(g):
+            for e in I.effects_at(g):
+                if e.kind == "NULLCHECK":
+                    return True
+                if e.kind == "UNWRAP":
+                    return True
+                if e.kind == "SWITCH" and isinstance(e["discr"], Poly):
+                    for a in e["discr"].atoms():
+                        if isinstance(a, tuple) and a[0] == "discr" and isinstance(a[1], tuple) and a[1] and a[1][0] in ("nonnull_opt", "phi"):
+                            return True
+            return False
         st_mem = [e for e in I.all_effects(("STORE",)) if e["path"] == (("P", 1), ("mem",))]
-        raw_store = [e for e in st_mem if ptr_parts(e["value"]) and isinstance(ptr_parts(e["value"])[0], tuple) and ptr_parts(e["value"])[0][0] == "ALLOC"]
-        chk("null-check", len(nc) >= 1 and len(nn) >= len(allocs) + len(reallocs) and not raw_store,
-            "the allocator result is not null-checked (NonNull::new + unwrap/handle_alloc_error) before it is stored")
+        unchecked = None
+        for a in allocs + reallocs:
+            seen, work = {a.gid}, [a.gid]
+            while work and unchecked is None:
+                g = work.pop()
+                for s in I._succs(g):
+                    if s in seen or is_nullcheck(s):
+                        continue
+                    seen.add(s)
+                    work.append(s)
+            hit = [e for e in st_mem if e.gid in seen and e.gid != a.gid]
+            if hit:
+                unchecked = hit[0]
+        chk("null-check", bool(st_mem) and unchecked is None,
+            "the allocator result reaches the store of self.mem without a null test (NonNull::new + unwrap / handle_alloc_error)", unchecked)
         # size := new on every normal path that changes anything
         st_size = [e for e in I.all_effects(("STORE",)) if e["path"] == (("P", 1), ("size",))]
-        chk("size-update", len(st_size) == 1 and as_poly(st_size[0]["value"]) == new and all(_not_after(I, st_size[0], x) for x in allocs + reallocs + deallocs),
+        chk("size-update", bool(st_size) and all(as_poly(e["value"]) == new for e in st_size)
+            and all(_not_after(I, e, x) for e in st_size for x in allocs + reallocs + deallocs),
             "self.size must be set to the new size after the allocator calls", st_size[0] if st_size else None)
         # ... on every normal path: a return without the update is only allowed when the size already equals the request
         for r in I.all_effects(("RETURN",)):
             def ok_at(g, st_size=st_size):
-                if st_size and st_size[0].gid == g:
+                if any(e.gid == g for e in st_size):
                     return True
                 return implies(I.facts_at(g), ("eq0", _canon(size0 - new)))
             ok_ret = every_path_to(I, r.gid, ok_at)
@@ -659,6 +683,35 @@ def r_heap(ctx):
                 "(capacity() then disagrees with the request: with_capacity/reserve/shrink do not keep their promises)", r)
         for e in allocs + reallocs + deallocs:
             pass
+    # bookkeeping follows the allocation: decided per case of the element size (the entry fact prunes the other branch)
+    #   element size != 0: `self.size` is only rewritten on paths that went through the allocator (alloc / realloc / dealloc), so
+    #                      element size x self.size stays the byte size of the live block (what realloc/dealloc present later)
+    #   element size == 0: the allocator is never reached
+    stride0 = Poly.atom(("lsize", ("init", (("P", 1), ("element_layout",)), 0)))
+    for case, ef in (("nonzero", [("ne0", stride0)]), ("zero", [("eq0", stride0)])):
+        for tt, I in ctx.arms(rp, entry_facts=ef) or []:
+            res.inst(sample={"obligation": "size bookkeeping follows the allocation", "case": "element size " + case}, func=rp)
+            acalls = I.all_effects(("ALLOC", "REALLOC", "DEALLOC", "ALLOC_OTHER"))
+            agids = {e.gid for e in acalls}
+            st_size = [e for e in I.all_effects(("STORE",)) if e["path"] == (("P", 1), ("size",))]
+            bad = None
+            if case == "nonzero":
+                for e in st_size:
+                    if not every_path_to(I, e.gid, lambda g: g in agids):
+                        bad = e
+                        break
+                if bad is not None:
+                    res.fail(rp, "size-follows-allocation", "self.size is rewritten on a path that did not resize the allocation: the recorded size no longer matches the live block, "
+                             "so a later realloc/dealloc presents a layout the block was not allocated with", span=span_of_effect(bad))
+                elif not st_size or not acalls:
+                    res.fail(rp, "size-follows-allocation", "no allocator call / size update found for non-zero-sized elements", span=ctx.span_of(rp))
+                else:
+                    res.ok()
+            else:
+                if acalls:
+                    res.fail(rp, "zst-no-allocator", "the allocator is reached although the element size is 0", span=span_of_effect(acalls[0]))
+                else:
+                    res.ok()
     # the allocator is called from resize only (one owner of the allocation protocol)
     for f in fx.fn_list:
         if not (f["path"].startswith("mem::heap") or f["path"].startswith("<mem::heap")) or f["path"].startswith(rp):
@@ -783,11 +836,14 @@ def r_align(ctx):
     # pointer producers inside storage backends: only the allocator, dangling(layout), inline buffers and caller-supplied handles
     ALLOWED = ("alloc", "realloc", "alloc_zeroed", "new", "new_unchecked", "unwrap", "expect", "unwrap_or_else", "as_ptr", "as_mut_ptr", "cast", "dangling", "from",
                "as_ref", "as_mut", "add")
+    work = []
     for f in fx.fn_list:
-        st = f.get("impl_self_ty", {})
         in_backend = (f.get("impl_trait") or "").startswith("mem::Mem") or f["path"].startswith("mem::") or f["path"].startswith("<mem::")
-        if not in_backend:
-            continue
+        if in_backend:
+            work.append(f)
+    judged = {id(f) for f in work}
+    while work:
+        f = work.pop(0)
         for b in f["blocks"]:
             tm = b["term"]
             if tm["k"] != "call" or "indirect" in tm["callee"]:
@@ -799,6 +855,15 @@ def r_align(ctx):
             s = dty.get("s", "")
             is_ptr = dty.get("k") == "ptr" or s.startswith("core::ptr::NonNull<") or s.startswith("core::option::Option<core::ptr::NonNull<")
             if not is_ptr:
+                continue
+            lf = fx.fn(c["path"])
+            if lf is not None and lf.get("blocks") and c["path"] != "mem::dangling":
+                # a helper of this crate: it is judged by its own pointer producers (not by its name)
+                res.inst(sample={"backend_fn": f["path"], "pointer_from_local_helper": c["path"]}, func=f["path"])
+                res.ok()
+                if id(lf) not in judged:
+                    judged.add(id(lf))
+                    work.append(lf)
                 continue
             res.inst(sample={"backend_fn": f["path"], "pointer_from": c["path"]}, func=f["path"])
             if c["name"] in ALLOWED and not (c["path"] == "core::ptr::NonNull::<T>::dangling"):
@@ -1257,49 +1322,30 @@ def r_stackcap(ctx):
     bp = builds.get("mem::stack::Stack")
     if not bp:
         res.coverage_lost("mem::stack::Stack", "MemBuilder::build not found")
-    for tt, I in ctx.arms(bp) or [] if bp else []:
-        fn = ctx.fn(bp)
-        res.inst(sample={"function": bp, "check": "capacity = SIZE / element size, usize::MAX iff element size == 0"}, func=bp)
-        divs = []
-        maxes = []
-        for node in I.g.nodes:
-            st = I.in_state.get(node.gid)
-            if st is None:
+    # decided per case of the element size: one interpretation under `element size != 0`, one under `element size == 0`
+    # (branches are pruned by the entry fact, so the recorded capacity is a single term in each case)
+    esz = Poly.atom(("lsize", ("init", (("A", 2), ()), 0)))
+    SIZE = Poly.atom(("cparam", "SIZE"))
+    for case, ef, want, what in (("nonzero", [("ne0", esz)], Poly.atom(("div", SIZE, esz)), "SIZE / element_layout.size()"),
+                                 ("zero", [("eq0", esz)], Poly.const(2 ** 64 - 1), "usize::MAX")):
+        for tt, I in ctx.arms(bp, entry_facts=ef) or [] if bp else []:
+            res.inst(sample={"function": bp, "case": "element size " + case, "check": "capacity = " + what}, func=bp)
+            ok = True
+            rets = I.all_effects(("RETURN",))
+            if not rets:
+                res.fail(bp, "capacity:" + case, "build() never returns when the element size is %s" % case, span=ctx.span_of(bp))
                 continue
-            for s in node.data["stmts"]:
-                rv = s.get("rv", {})
-                if rv.get("k") == "bin" and rv.get("op") == "Div":
-                    st2 = st.copy()
-                    a = I.eval_operand(st2, node.inst, rv["args"][0])
-                    b = I.eval_operand(st2, node.inst, rv["args"][1])
-                    divs.append((a, b, st.facts, s.get("line")))
-                if rv.get("k") == "use" and "const" in rv["args"][0] and rv["args"][0]["const"].get("val") == str(2 ** 64 - 1):
-                    maxes.append((st.facts, s.get("line")))
-        ok = True
-        if len(divs) != 1:
-            res.fail(bp, "capacity", "expected one division SIZE / element size, found %d" % len(divs), span=ctx.span_of(bp))
-            ok = False
-        else:
-            a, b, facts, line = divs[0]
-            if as_poly(a) != Poly.atom(("cparam", "SIZE")) or [x[0] for x in as_poly(b).atoms()] != ["lsize"] or len(as_poly(b).m) != 1:
-                res.fail(bp, "capacity", "capacity is computed as %s / %s, expected SIZE / element_layout.size()" % (a, b), span="%s:%s" % (fn["span"]["file"], line))
+            tr = ret_tree(I) or {}
+            got = tr.get(("size",))
+            if not isinstance(got, Poly) or got != want:
+                key = "capacity" if case == "nonzero" else "zero-size-capacity"
+                res.fail(bp, key, "with element size %s the recorded capacity is %s, expected %s" % (case, got, what), span=ctx.span_of(bp))
                 ok = False
-            elif not implies(facts, ("ne0", _canon(as_poly(b)))):
-                res.fail(bp, "zero-size-guard", "the division is not guarded by element size != 0", span="%s:%s" % (fn["span"]["file"], line))
+            if not (isinstance(tr.get(("element_layout",)), tuple) and tr[("element_layout",)][:1] == ("alias",) and tr[("element_layout",)][1][0] == ("A", 2)):
+                res.fail(bp, "layout", "the storage does not record the requested element layout", span=ctx.span_of(bp))
                 ok = False
-            if len(maxes) != 1 or not implies(maxes[0][0], ("eq0", _canon(as_poly(b)))):
-                res.fail(bp, "zero-size-capacity", "zero-sized elements must get capacity usize::MAX (and only they)", span=ctx.span_of(bp))
-                ok = False
-        extra = [e for e in I.all_effects(("ARITH",)) if e["op"] in ("Add", "Sub", "Mul")]
-        if extra:
-            res.fail(bp, "capacity-adjusted", "the capacity is adjusted by %s %s %s after the division" % (extra[0]["a"], extra[0]["op"], extra[0]["b"]), span=span_of_effect(extra[0]))
-            ok = False
-        tr = ret_tree(I) or {}
-        if not (isinstance(tr.get(("element_layout",)), tuple) and tr[("element_layout",)][:1] == ("alias",) and tr[("element_layout",)][1][0] == ("A", 2)):
-            res.fail(bp, "layout", "the storage does not record the requested element layout", span=ctx.span_of(bp))
-            ok = False
-        if ok:
-            res.ok()
+            if ok:
+                res.ok()
     sp = sizes.get("mem::stack::StackMem")
     for tt, I in ctx.arms(sp) or [] if sp else []:
         rets = I.all_effects(("RETURN",))
